@@ -200,13 +200,15 @@ namespace Pistache
     template <typename T>
     size_t digitsCount(T val)
     {
-        size_t digits = 0;
-        while (val % 10)
+        // Number of characters needed to print val in decimal (including the
+        // minus sign). Zero digits inside the number do not end the count.
+        size_t digits = (val < T(0)) ? 1 : 0;
+        do
         {
             ++digits;
 
             val /= 10;
-        }
+        } while (val != 0);
 
         return digits;
     }
